@@ -136,6 +136,20 @@ func eval1(c Case) (evid.Verdict, bool) {
 				trivial = true
 				return evid.Pass()
 			}
+		case "otherkeylen":
+			// another key of another length (one that another checksum type would take, or none): whatever is
+			// presented - the checksum computed under the right key, the empty string, nil - is not "that value"
+			vkey, _ = hex.DecodeString(c.Other)
+			if len(vkey) == len(key) {
+				trivial = true
+				return evid.Pass()
+			}
+			switch c.A {
+			case 0:
+				pres = []byte{}
+			case 1:
+				pres = nil
+			}
 		case "otherusage":
 			vusage = uint32(c.A)
 			if vusage == c.Usage || (c.Ck == ref.CkRC4 && ref.RC4Usage(vusage) == ref.RC4Usage(c.Usage)) {
@@ -199,7 +213,7 @@ func TestProp(t *testing.T) {
 			r.Violation(check, c, v)
 		}
 	}
-	r.Rule("rapid: checksum type {12,15,16,19,20,-138} x data length 0..200 x usage set x random key; variant from {value equality with the reference, correct verification, proper prefix, one-byte extension, bit flip, other data, other key, other usage (rc4 aliases skipped)}; every case compares against the independent value, distinct by (type,len,usage,variant,arg)")
+	r.Rule("rapid: checksum type {12,15,16,19,20,-138} x data length 0..200 x usage set x random key; variant from {value equality with the reference, correct verification, proper prefix, one-byte extension, bit flip, other data, other key, a key of another length (0..64 octets) with the right-key checksum / the empty string / nil presented, other usage (rc4 aliases skipped)}; every case compares against the independent value, distinct by (type,len,usage,variant,arg)")
 	r.Rapid("cksum", r.N(8000, 40000), func(t *rapid.T) {
 		ck := rapid.SampledFrom(ref.CksumTypes).Draw(t, "cksumtype")
 		et := ref.ETypeForCksum(ck)
@@ -207,7 +221,7 @@ func TestProp(t *testing.T) {
 		c.Key = hex.EncodeToString(kgen.Key(t, et, "key"))
 		c.Data = hex.EncodeToString(kgen.Bytes(t, "data", rapid.IntRange(0, 200).Draw(t, "len")))
 		cl := ref.CksumLen(et)
-		c.Variant = rapid.SampledFrom([]string{"value", "correct", "prefix", "extend", "bitflip", "otherdata", "otherkey", "otherusage"}).Draw(t, "variant")
+		c.Variant = rapid.SampledFrom([]string{"value", "correct", "prefix", "extend", "bitflip", "otherdata", "otherkey", "otherkeylen", "otherusage"}).Draw(t, "variant")
 		switch c.Variant {
 		case "prefix":
 			c.A = rapid.IntRange(0, cl-1).Draw(t, "plen")
@@ -219,6 +233,9 @@ func TestProp(t *testing.T) {
 			c.Other = hex.EncodeToString(rapid.SliceOfN(rapid.Byte(), 0, 40).Draw(t, "otherdata"))
 		case "otherkey":
 			c.Other = hex.EncodeToString(kgen.Key(t, et, "otherkey"))
+		case "otherkeylen":
+			c.Other = hex.EncodeToString(kgen.Bytes(t, "otherkey", rapid.SampledFrom([]int{0, 1, 8, 15, 16, 17, 24, 32, 33, 64}).Draw(t, "otherkeylen")))
+			c.A = rapid.IntRange(0, 2).Draw(t, "presented")
 		case "otherusage":
 			c.A = int(kgen.Usage(t))
 		}
@@ -236,7 +253,7 @@ func TestProp(t *testing.T) {
 		judge("cksum", c, t)
 	})
 	// Enumeration
-	r.Rule("enum: type map over ids -200..40 and 32771; for each checksum type x selected data lengths x usages: value, every proper prefix, every one-byte extension (quick: 4 byte values, thorough: all 256), every single-bit flip, other data/key, every other usage")
+	r.Rule("enum: type map over ids -200..40 and 32771; for each checksum type x selected data lengths x usages: value, every proper prefix, every one-byte extension (quick: 4 byte values, thorough: all 256), every single-bit flip, other data/key, keys of 0/8/16/24/32 octets where another length is due x {right-key checksum, empty, nil}, every other usage")
 	for id := -200; id <= 40; id++ {
 		judge("enum", Case{Variant: "typemap", A: id}, nil)
 	}
@@ -308,6 +325,13 @@ func TestProp(t *testing.T) {
 		c = base
 		c.Variant, c.Other = "otherkey", hex.EncodeToString(ref.RandomKey(et, kgen.DetBytes(r.Seed(), lbl+"/k2", 32)))
 		judge("enum", c, nil)
+		for _, kl := range []int{0, 8, 16, 24, 32} {
+			for a := 0; a <= 2; a++ {
+				c = base
+				c.Variant, c.A, c.Other = "otherkeylen", a, hex.EncodeToString(kgen.DetBytes(r.Seed(), lbl+"/kl", kl))
+				judge("enum", c, nil)
+			}
+		}
 		for _, u := range kgen.Usages {
 			c = base
 			c.Variant, c.A = "otherusage", int(u)
